@@ -151,7 +151,11 @@ pub fn finish(mut report: Report) -> i32 {
             }
         }
     }
-    let replay_dir = PathBuf::from(VERIF_DIR).join("replays").join(report.property);
+    // seeded / regression runs keep their replays with their evidence, away from the committed ones
+    let replay_dir = match std::env::var("VERIF_EVIDENCE_DIR") {
+        Ok(d) if !d.is_empty() => PathBuf::from(d).join("replays").join(report.property),
+        _ => PathBuf::from(VERIF_DIR).join("replays").join(report.property),
+    };
     let _ = std::fs::remove_dir_all(&replay_dir);
     let mut exit = 0;
     for (id, (count, what)) in &known_hits {
